@@ -110,6 +110,8 @@ impl<'a> ZipFile<'a> {
 //@use zipfile_central_header_start
 //@use zipfile_unix_mode
 //@use zipfile_name
+//@use zipfile_is_dir
+//@use zipfile_is_file
 }
 //@use read_zipfile_from_stream
 //@impl src/read.rs | impl<'a> Read for ZipFile<'a>
